@@ -54,6 +54,7 @@ def gen(rng, tier):
     n = 0
     for s in SCENARIOS:
         cases.append(("faults", "f%d" % n, ["free %s" % s])); n += 1
+        cases.append(("faults", "k%d" % n, ["probe %s %d" % (s, KMAX)])); n += 1
         sels = range(MAXERR) if tier == "thorough" else [0]
         for k in range(KMAX):
             for sel in sels:
